@@ -32,15 +32,22 @@ def _rel_ok(p: str) -> bool:
 _PREFIX = [None, "lib", "a/b", "lib/"]
 
 
-@harness("C12", pre=lambda B, p, kind, pf, iv: len(p) <= B["L"] and _rel_ok(p) and 0 <= kind <= 3 and 0 <= pf <= 3 and 0 <= iv <= 1,
-         bounds={"quick": {"L": 2}, "thorough": {"L": 3}},
+def _pre_url(B, p, kind, pf, iv):
+    # thorough: three characters on four of the sixteen (source kind, prefix) shards, two on the rest (a three-character
+    # shard costs ~2000 paths at ~1 s of solver time each; all sixteen did not fit any sane budget)
+    lim = B["L"] + (1 if (B["L3"] and kind in (0, 2) and pf in (0, 2) and iv == 1) else 0)
+    return len(p) <= lim and _rel_ok(p) and 0 <= kind <= 3 and 0 <= pf <= 3 and 0 <= iv <= 1
+
+
+@harness("C12", pre=_pre_url,
+         bounds={"quick": {"L": 2, "L3": False}, "thorough": {"L": 2, "L3": True}},
          shard={"kind": range(4), "pf": range(4)},
          sym=["p: relative file path, str over all code points (no empty segment, no lone surrogate), len <= L"],
          sel=["kind: local directory source / package source / URL source without and with trailing slash", "pf: lib_prefix None, 'lib', 'a/b', 'lib/'", "iv: include_version"],
          targets=["htmltools._core.HTMLDependency.as_dict", "htmltools._core.HTMLDependency.source_path_map"],
          stubs=["urllib.parse.quote replaced by engine/stubs/quote_model.py (validated against the real function on every run)",
                 "htmltools._core.package_dir replaced by a pure function in h_url_format (the real one is exercised by h_copy)"],
-         timeout={"quick": 300, "thorough": 2400},
+         timeout={"quick": 300, "thorough": 3000},
          outside="dependency names needing percent-encoding (the statement puts the name in the URL raw); paths longer than L")
 def h_url_format(p: str, kind: int, pf: int, iv: int) -> bool:
     """each script/stylesheet URL is prefix/name[-version]/percent-encoded path for a local source and href/path for a URL source"""
